@@ -567,6 +567,18 @@ def replay(path):
     print("  failing expression: %s" % rep.get("failing_expression"))
     rc = 0
     ce = rep.get("counterexample") or {}
+    if ce.get("found") and (ce["input"].get("builtin") or "").startswith("program:"):
+        from . import progsearch
+
+        quiv = progsearch.build_quiv()
+        src = ce["input"]["args"][0]
+        print("  program: %s" % src)
+        print("  recorded: %s" % ce["input"]["observed"].get("why"))
+        prop = rep.get("property")
+        r = progsearch.check_tail_shapes(quiv) if prop == "C16" else progsearch.check_heap_progs(quiv)
+        still = [f for f in r["failures"] if f["source"] == src]
+        print("  => %s" % ("REPRODUCED: " + still[0]["why"] if still else "passes now (not reproduced)"))
+        return 1 if still else 0
     if ce.get("found"):
         binary = build_replay()
         call = ce["input"]["call"]
